@@ -131,3 +131,10 @@ package cluster
 //@   requires [ok] forall id uint64 :: entryOK(entryOf(c.shardView, id)) && entryOf(c.shardView, id).ShardID == id
 //@   before (*shardView).update assert [C19.gossip.merge] v == c.shardView && sameSlice(updates, remote.ShardView)
 //@   modifies elems(c.shardView.shards)
+
+// ShardInfo answers from the merged view
+//@ func (*Cluster).ShardInfo
+//@   requires c != nil && c.shardView != nil
+//@   ensures [C19.read.cluster] has(c.shardView.shards, id) ==> result == c.shardView.shards[id]
+//@   ensures !has(c.shardView.shards, id) ==> result == registry.ShardView{}
+//@   modifies nothing
